@@ -511,3 +511,96 @@ def replay(which, n, name, model):
     obs = _run("native", which, n, "quick", assignment)
     bad = [o for o in obs if o["result"] == "refuted" and o["name"].split("[")[0] == name.split("[")[0]]
     return (f"parameters {assignment or 'generic'}: " + "; ".join(f"{o['name']}: {o.get('model')}" for o in bad[:2])) if bad else None
+
+
+# ------------------------------------------------------------------------------------------------ C16: one object used over a fine scan / after a failed experiment
+def unit_scans(tier="quick", seed=0):
+    """native: one tomography object (LI, MLE, GateFidelity) used again and again while a circuit Parameter moves in steps of 0.004 rad (and once by a large step),
+    and once after an experiment call that failed: every result describes the circuit as it is at that call (compared with choi_from_unitary / the fidelity formula
+    of the current gate matrix)."""
+    import lightworks as lw
+    from lightworks import qubit, tomography
+    from lightworks.tomography import choi_from_unitary
+    env = Env("native")
+    fails, n = [], 0
+
+    def build():
+        p = lw.Parameter(0.4)
+        c = lw.Circuit(2)
+        c.add(qubit.H(), 0)
+        c.ps(1, p)
+        return c, p
+
+    def V_of(c):
+        return real_np.array(gate_matrix_of(env, c, 1), dtype=complex)
+
+    def formula(T, V):
+        d = 2
+        tr = real_np.trace(T.conj().T @ V)
+        return float((abs(tr) ** 2 + d) / (d * (d + 1)))
+    T_fixed = real_np.array([[1, 0], [0, 1j]], dtype=complex)
+    steps = [0.004, 0.004, 0.004, 0.9, 0.004, -0.004]
+    # fine scan
+    for cls in ("LI", "MLE", "GateFidelity"):
+        c, p = build()
+        obj = {"LI": tomography.LIProcessTomography, "MLE": tomography.MLEProcessTomography, "GateFidelity": tomography.GateFidelity}[cls](1, c, experiment_factory(env, 1))
+        for k, dth in enumerate([0.0] + steps):
+            p.set(p.get() + dth)
+            n += 1
+            V = V_of(c)
+            try:
+                if cls == "GateFidelity":
+                    got, want = obj.process(T_fixed), formula(T_fixed, V)
+                    got_v = obj.process(V)
+                    ok = abs(got - want) < 1e-7 and abs(got_v - 1) < 1e-7
+                    detail = f"fidelity to a fixed target {got:.7f} (formula {want:.7f}), to its own matrix {got_v:.7f}"
+                else:
+                    choi = real_np.array(obj.process(), dtype=complex)
+                    ref = real_np.array(choi_from_unitary(V), dtype=complex)
+                    dev = float(real_np.abs(choi - ref).max())
+                    ok = dev < (1e-7 if cls == "LI" else 0.1) and (cls == "LI" or _fid(obj, ref) >= 0.99)
+                    detail = f"Choi matrix off the reference of the current circuit by {dev:.2e}"
+            except Exception as e:  # noqa: BLE001
+                ok, detail = False, f"raised {type(e).__name__}: {e}"
+            if not ok:
+                fails.append((dict(object=cls, step=k, parameter=round(p.get(), 4)), detail))
+                break
+    # a failed experiment in between: process() ok, circuit changes, process() fails inside the experiment, process() again
+    for cls in ("LI", "GateFidelity"):
+        c, p = build()
+        state = {"fail": False}
+        inner = experiment_factory(env, 1)
+
+        def exp(circuits, inputs, inner=inner, state=state):
+            if state["fail"]:
+                raise RuntimeError("transient backend failure")
+            return inner(circuits, inputs)
+        obj = {"LI": tomography.LIProcessTomography, "GateFidelity": tomography.GateFidelity}[cls](1, c, exp)
+        n += 1
+        try:
+            (obj.process() if cls == "LI" else obj.process(T_fixed))
+            p.set(1.7)
+            state["fail"] = True
+            try:
+                (obj.process() if cls == "LI" else obj.process(T_fixed))
+            except RuntimeError:
+                pass
+            state["fail"] = False
+            V = V_of(c)
+            if cls == "LI":
+                dev = float(real_np.abs(real_np.array(obj.process(), dtype=complex) - real_np.array(choi_from_unitary(V), dtype=complex)).max())
+                if dev > 1e-7:
+                    fails.append((dict(object=cls, history="ok, change, failed experiment, retry"), f"the retry returns a Choi matrix off the current circuit's by {dev:.3f}"))
+            else:
+                got, want = obj.process(T_fixed), formula(T_fixed, V)
+                if abs(got - want) > 1e-7:
+                    fails.append((dict(object=cls, history="ok, change, failed experiment, retry"), f"the retry returns fidelity {got:.6f}, the formula for the current circuit gives {want:.6f}"))
+        except Exception as e:  # noqa: BLE001
+            fails.append((dict(object=cls, history="ok, change, failed experiment, retry"), f"raised {type(e).__name__}: {e}"))
+    o = dict(name="lightworks/tomography/process_tomography.py:ProcessTomography#bnd.scans-and-retries", kind="bnd", cases=n, result="bounded-fail" if fails else "bounded-pass",
+             backend="native floats", ms=0, note="LI / MLE / GateFidelity objects reused over parameter steps of 0.004 rad and 0.9 rad and after a failed experiment: each result is that of the current circuit")
+    if fails:
+        o["failing_cases"] = [str(f[0]) for f in fails]
+        o["model"] = dict(case=fails[0][0], observed=fails[0][1], n_failing=len(fails))
+        o["replayed"] = f"{len(fails)} of {n} cases fail; first {fails[0][0]}: {fails[0][1]}"
+    return dict(status="ok", obligations=[o], summary=f"tomography scans: {n} cases")
